@@ -676,6 +676,18 @@ class World:
         it.c.assume(k > len(self.signals))
         return SInt(k)
 
+    def loop_shapes(self):
+        """contracts/loop_shapes.json: shapes of the loops of the tree the sidecars were written for."""
+        if not hasattr(self, '_loop_shapes'):
+            import json
+            import os
+            p = os.path.join(os.path.dirname(os.path.dirname(os.path.abspath(__file__))), 'contracts', 'loop_shapes.json')
+            try:
+                self._loop_shapes = json.load(open(p))
+            except (OSError, ValueError):
+                self._loop_shapes = {}
+        return self._loop_shapes
+
     # ---- name resolution outside function frames
     def global_lookup(self, ctx, name, frame):
         src = self.src
@@ -735,7 +747,7 @@ unbox = z3.Function('unbox_int', Ref, z3.IntSort())
 
 BUILTIN_NAMES = {'len', 'id', 'isinstance', 'hasattr', 'type', 'map', 'list', 'reversed', 'range', 'str', 'callable',
                  'print', 'pp', 'pprint', 'setattr', 'getattr', 'int', 'copy', 'wraps', 'super', 'enumerate',
-                 'sorted', 'set', 'True', 'False', 'next', 'max', 'min'}
+                 'sorted', 'set', 'True', 'False', 'next', 'max', 'min', 'bool', 'any'}
 MODULE_NAMES = {'itertools', 'time', 'uuid', 're', 'inspect', 'json', 'stdlib_datetime', 'traceback', 'sys'}
 CLASS_ALIASES = {'HsmEvent': 'Event', 'ThreadEvent': 'ThreadEvent', 'Thread': 'Thread', 'deque': 'deque',
                  'Queue': 'Queue', 'PriorityQueue': 'PriorityQueue', 'RLock': 'RLock', 'OrderedDict': 'OrderedDict',
